@@ -12,6 +12,7 @@ mod c14;
 mod c15;
 mod c16;
 mod c17;
+mod c20;
 mod common;
 mod refmodel;
 mod sweep;
@@ -103,6 +104,7 @@ fn main() {
         "C05" => c05::run(&ctx),
         "C06" => c06::run(&ctx),
         "C17" => c17::run(&ctx),
+        "C20" => c20::run(&ctx),
         "C07" => c07::run(&ctx),
         "C08" => c08::run(&ctx),
         "C09" => c09::run(&ctx),
